@@ -92,12 +92,14 @@ def fineRun (q : Queue) (prod : Kind × Nat) (k1 k2 : Nat) : Option FOutcome :=
     match fchain q.levels ls1 k2 q.outstanding.isNone 0 0 with
     | none => none
     | some (r, n, rm0, rm1) =>              -- the consumer's RMW is its access number `n`
-      match queueLv rm0 prod.2 prod.1 with  -- the producer's load / RMW when they come after the consumer's RMW
-      | none => none
-      | some (late, b1) =>
-        some { pres := if k1 ≤ n then b0 else b1,
-               deq := r,
-               q := { levels := if k2 ≤ n then rm1 else late, outstanding := newOut q.outstanding r } }
+      if k2 ≤ n then                        -- producer's load and RMW both before the consumer's RMW
+        some { pres := b0, deq := r, q := { levels := rm1, outstanding := newOut q.outstanding r } }
+      else
+        match queueLv rm0 prod.2 prod.1 with  -- the producer's RMW (and load, if `n < k1`) after the consumer's RMW
+        | none => none
+        | some (late, b1) =>
+          some { pres := if k1 ≤ n then b0 else b1, deq := r,
+                 q := { levels := late, outstanding := newOut q.outstanding r } }
 
 /-- number of accesses of the consumer on `q` (its loads and the RMW) -/
 def fineAccesses (q : Queue) : Nat :=
